@@ -1,6 +1,7 @@
 package exec
 
 import (
+	"sync/atomic"
 	"bytes"
 	"context"
 	"fmt"
@@ -148,9 +149,22 @@ func (x *Exec) Discharge(cfg *SolverCfg) []*Result {
 		cfg.Timeout = 10 * time.Second
 	}
 	results := make([]*Result, len(x.Obls))
-	type job struct {
-		i      int
+	// A query is tried in several logically equivalent or weaker-hypothesis forms ("variants"):
+	//   exact    the obligation as generated (+ sound instances); only this form can REFUTE
+	//   ground   quantified hypotheses dropped, nonlinear products abstracted: a quick sufficient check
+	//   nl       nonlinear products abstracted to an uninterpreted function
+	// at two instantiation levels (A: goal skolems only, B: + neighbours and index matching).
+	// "unsat" of any variant proves the obligation.
+	type variant struct {
+		name   string
 		script string
+		quick  bool // short timeout, first solver only
+		exact  bool
+	}
+	type job struct {
+		i        int
+		script   string
+		variants []variant
 	}
 	var jobs []job
 	axioms := x.P.axiomTerms(x)
@@ -160,6 +174,26 @@ func (x *Exec) Discharge(cfg *SolverCfg) []*Result {
 				fmt.Fprintf(os.Stderr, "big assumption #%d size %d: %.200s\n", i, sz, a.String())
 			}
 		}
+	}
+	groundOf := func(rel []*T, goal *T) string {
+		if hasQuant(goal) {
+			return ""
+		}
+		var qf []*T
+		nq := 0
+		for _, h := range rel {
+			if hasQuant(h) {
+				nq++
+				continue
+			}
+			qf = append(qf, h)
+		}
+		if nq == 0 {
+			return ""
+		}
+		term.AbstractNL = true
+		defer func() { term.AbstractNL = false }()
+		return term.Script(qf, goal, nil, false)
 	}
 	for i, o := range x.Obls {
 		r := &Result{Obl: o}
@@ -174,31 +208,60 @@ func (x *Exec) Discharge(cfg *SolverCfg) []*Result {
 		as = append(as, axioms...)
 		as = append(as, x.P.specDefAxioms(x)...)
 		var script string
+		var variants []variant
 		if o.Cover {
 			rel := append(append([]*T(nil), x.Assumptions[:o.NAssume]...), o.PC, o.Cond)
 			script = term.Script(rel, nil, nil, false)
 			r.Size = term.Size(rel...)
 		} else {
-			rel := relevant(as, o.PC, o.Cond)
-			rel = append(rel, o.PC)
+			base := relevant(as, o.PC, o.Cond)
+			base = append(base, o.PC)
 			goal := o.Cond
+			relA := base
+			var relB []*T
 			if x.Mode == ModeProof {
 				var sks []*T
 				goal = skolemize(goal, &sks)
-				rel = append(rel, instances(rel, sks)...)
+				relA = append(append([]*T(nil), base...), instances(base, sks, false)...)
+				relB = append(append([]*T(nil), base...), instances(base, sks, true)...)
+				relB = append(relB, matchInstances(relB, goal)...)
 			}
 			if len(x.P.SpecDefs) > 0 {
-				rel = append(rel, x.P.defInstances(x, append(append([]*T(nil), rel...), goal))...)
+				d := x.P.defInstances(x, []*T{o.PC, goal})
+				relA = append(relA, d...)
+				if relB != nil {
+					relB = append(relB, d...)
+				}
 			}
-			script = term.Script(rel, goal, nil, true)
-			r.Size = term.Size(append(rel, goal)...)
+			script = term.Script(relA, goal, nil, true)
+			r.Size = term.Size(append(relA, goal)...)
+			if x.Mode == ModeProof {
+				if g := groundOf(relA, goal); g != "" {
+					variants = append(variants, variant{name: "ground-instances", script: g, quick: true})
+				}
+				if g := groundOf(relB, goal); g != "" {
+					variants = append(variants, variant{name: "ground-instances+", script: g, quick: true})
+				}
+			}
+			variants = append(variants, variant{name: "", script: script, exact: true})
+			if relB != nil && len(relB) != len(relA) {
+				variants = append(variants, variant{name: "instances+", script: term.Script(relB, goal, nil, true), exact: true})
+			}
+			last := relA
+			if relB != nil {
+				last = relB
+			}
+			if hasNL(append(last, goal)) {
+				term.AbstractNL = true
+				variants = append(variants, variant{name: "nl-abstracted", script: term.Script(last, goal, nil, false)})
+				term.AbstractNL = false
+			}
 		}
 		r.Script = script
 		if os.Getenv("GOVC_DEBUG") != "" && len(script) > 20000 {
-			fmt.Fprintf(os.Stderr, "big script %s: %d bytes, %d relevant assumptions of %d\n", o.Name, len(script), len(relevant(as, o.PC, o.Cond)), len(as))
-			os.WriteFile("/tmp/big.smt2", []byte(script), 0o644)
+			fmt.Fprintf(os.Stderr, "big script %s: %d bytes\n", o.Name, len(script))
 		}
-		jobs = append(jobs, job{i, script})
+		jobs = append(jobs, job{i, script, variants})
 	}
 	tmp, err := os.MkdirTemp("", "govc")
 	if err != nil {
@@ -206,6 +269,7 @@ func (x *Exec) Discharge(cfg *SolverCfg) []*Result {
 	}
 	defer os.RemoveAll(tmp)
 	var wg sync.WaitGroup
+	var exhausted int32
 	ch := make(chan job)
 	for w := 0; w < cfg.Workers; w++ {
 		wg.Add(1)
@@ -214,8 +278,53 @@ func (x *Exec) Discharge(cfg *SolverCfg) []*Result {
 			for j := range ch {
 				r := results[j.i]
 				file := filepath.Join(tmp, fmt.Sprintf("q%d.smt2", j.i))
-				os.WriteFile(file, []byte(j.script), 0o644)
-				runPortfolio(cfg, r, file)
+				if len(j.variants) == 0 {
+					os.WriteFile(file, []byte(j.script), 0o644)
+					runPortfolio(cfg, r, file)
+					os.Remove(file)
+					continue
+				}
+				total := 0.0
+				for _, v := range j.variants {
+					// once a few obligations of this batch resisted every variant, the function has
+					// most likely changed: the rest get the exact query only (bounded check time)
+					if atomic.LoadInt32(&exhausted) >= 2 && !v.exact {
+						continue
+					}
+					os.WriteFile(file, []byte(v.script), 0o644)
+					if v.quick {
+						to := 3 * time.Second
+						if cfg.Timeout < to {
+							to = cfg.Timeout
+						}
+						st, _, secs := runSolver(context.Background(), solvers[0], to, file)
+						cfg.addTime(solvers[0].name, secs)
+						total += secs
+						if st == "unsat" {
+							r.Verdict, r.Solver = Proved, solvers[0].name+"("+v.name+")"
+							cfg.count(solvers[0].name)
+							break
+						}
+						continue
+					}
+					r.Seconds = 0
+					runPortfolio(cfg, r, file)
+					total += r.Seconds
+					if r.Verdict == Proved {
+						if v.name != "" {
+							r.Solver += "(" + v.name + ")"
+						}
+						break
+					}
+					if r.Verdict == Refuted && v.exact {
+						break
+					}
+					r.Verdict, r.Model = Undecided, ""
+				}
+				r.Seconds = total
+				if r.Verdict != Proved {
+					atomic.AddInt32(&exhausted, 1)
+				}
 				os.Remove(file)
 			}
 		}(w)
@@ -236,7 +345,7 @@ func (x *Exec) Discharge(cfg *SolverCfg) []*Result {
 		}
 	}
 	if len(retry) > 4 {
-		retry = retry[:4]
+		retry = nil // many undecided obligations are not a load effect
 	}
 	if len(retry) > 0 {
 		long := &SolverCfg{Timeout: cfg.Timeout * 3, Workers: 4}
@@ -249,9 +358,9 @@ func (x *Exec) Discharge(cfg *SolverCfg) []*Result {
 				for j := range rch {
 					r := results[j.i]
 					file := filepath.Join(tmp, fmt.Sprintf("retry%d.smt2", j.i))
-					os.WriteFile(file, []byte(j.script), 0o644)
 					first := r.Seconds
 					r.Seconds = 0
+					os.WriteFile(file, []byte(j.script), 0o644)
 					runPortfolio(long, r, file)
 					r.Seconds += first
 					if r.Verdict == Proved {
@@ -280,6 +389,15 @@ func (x *Exec) Discharge(cfg *SolverCfg) []*Result {
 			if r.Verdict != Proved && !r.Trivial {
 				os.MkdirAll(cfg.KeepDir, 0o755)
 				os.WriteFile(filepath.Join(cfg.KeepDir, sanitizeFile(r.Obl.Name)+".smt2"), []byte(r.Script), 0o644)
+			}
+		}
+		for _, j := range jobs {
+			if r := results[j.i]; r.Verdict != Proved {
+				for _, v := range j.variants {
+					if v.name != "" {
+						os.WriteFile(filepath.Join(cfg.KeepDir, sanitizeFile(r.Obl.Name)+"."+v.name+".smt2"), []byte(v.script), 0o644)
+					}
+				}
 			}
 		}
 	}
@@ -544,4 +662,42 @@ func hasQuant(t *T) bool {
 	}
 	quantMemo[t] = r
 	return r
+}
+
+var nlMemo = map[*T]bool{}
+
+// hasNL reports whether any term contains a product of two non-constant factors.
+func hasNL(ts []*T) bool {
+	var rec func(t *T) bool
+	rec = func(t *T) bool {
+		if v, ok := nlMemo[t]; ok {
+			return v
+		}
+		r := false
+		if t.Op == term.OMul {
+			n := 0
+			for _, a := range t.Args {
+				if a.Op != term.OConst {
+					n++
+				}
+			}
+			r = n >= 2
+		}
+		if !r {
+			for _, a := range t.Args {
+				if rec(a) {
+					r = true
+					break
+				}
+			}
+		}
+		nlMemo[t] = r
+		return r
+	}
+	for _, t := range ts {
+		if rec(t) {
+			return true
+		}
+	}
+	return false
 }
